@@ -45,7 +45,8 @@ def semantic_digest(r):
     if dv.error or dv.target is None:
         return ("bad", dv.reason)
     return ("ok", repr(A.to_plain(A.merge(dv.target.bindings))),
-            repr([A.to_plain(A.merge(l)) for l in dv.layers]), tuple(dv.wrappers))
+            repr([A.to_plain(A.merge(l)) for l in dv.layers]),
+            tuple(w for w in dv.wrappers if w != "paren"))
 
 
 def step_key(dv, op):
@@ -115,7 +116,10 @@ def run_shard(spec):
             if keys:
                 break  # the live object may now disagree with its text: later steps are tainted
             if r.exc_type is None:
-                last_ok = {k: v for k, v in base.items() if k in ("op", "cls", "shape", "via_nested_attrpath_set")}
+                this_ok = {k: v for k, v in base.items() if k in ("op", "cls", "shape", "via_nested_attrpath_set")}
+                # an earlier edit through a nested set with attrpath bindings stays the prime suspect
+                if not (last_ok and last_ok.get("via_nested_attrpath_set") == "yes"):
+                    last_ok = this_ok
             if len(res["samples"]) < 3 and res["evaluations"] % 211 == 1:
                 res["samples"].append({"before": before[:300], "op": [op.kind, op.npath, op.value],
                                        "after": (r.out or "")[:300], "exception": r.exc_type})
